@@ -677,7 +677,7 @@ func genCfg(r *rng.R, dev uint32) cfgGen {
 		switch r.Intn(5) {
 		case 0: // no address
 		case 1:
-			addr = types.ControllerAddrFrom(netip.AddrFrom4([4]byte{}), uint16(rng.Pick(r, 60000, 0)))
+			addr = types.ControllerAddrFrom(netip.AddrFrom4([4]byte{}), uint16(rng.Pick(r, 60000, 0, 60000, 1, 54321, 60001))) // 0.0.0.0 is no address, whatever the port
 			at = fmt.Sprintf("0.0.0.0:%d", addr.Port())
 		case 2:
 			b := r.Bytes(4)
